@@ -415,6 +415,7 @@ impl KeyStatus {
         let authorization_scheme = self.authorizationScheme.to_string();
         if authorization_scheme != constants::AUTHORIZATION_SCHEME {
             validate_message.push_str("authorizationScheme must be 'Azure-HMAC-SHA256'; ");
+            validate_result = false;
         }
 
         // validate
@@ -426,6 +427,7 @@ impl KeyStatus {
                 "keyDeliveryMethod '{}' is invalid; ",
                 key_delivery_method
             ));
+            validate_result = false;
         }
 
         if self.secureChannelEnabled.is_none() && self.secureChannelState.is_none() {
